@@ -337,14 +337,19 @@ def materialize(cfg, root):
     # emissions file: sample-type columns in g/s so that no unit conversion is involved here
     with open(os.path.join(in_dir, "emissions.csv"), "w", newline="") as fh:
         w = csv.writer(fh)
-        w.writerow(["rep_src", "nonrep_src"])
-        w.writerow(["sample", "sample"])
-        w.writerow(["", ""])
-        w.writerow([100000, 100000])
-        w.writerow(["gram", "gram"])
-        w.writerow(["second", "second"])
-        for r in cfg["rates"]:
-            w.writerow([r, r])
+        # optional cfg["dist_sources"] = {"rep_src" | "nonrep_src": {"dist": "lognorm", "scale": -1.79, "shape": 2.17,
+        #   "max": 100000, "unit": "kilogram", "time": "hour"}}: that column becomes a dist-type source (a frozen
+        #   scipy.stats distribution) instead of the sample-type list of cfg["rates"]; absent (default): unchanged
+        ds = cfg.get("dist_sources") or {}
+        cols = ["rep_src", "nonrep_src"]
+        w.writerow(cols)
+        w.writerow(["dist" if c in ds else "sample" for c in cols])
+        w.writerow([ds[c].get("dist", "lognorm") if c in ds else "" for c in cols])
+        w.writerow([ds[c].get("max", 100000) if c in ds else 100000 for c in cols])
+        w.writerow([ds[c].get("unit", "kilogram") if c in ds else "gram" for c in cols])
+        w.writerow([ds[c].get("time", "hour") if c in ds else "second" for c in cols])
+        for i, r in enumerate(cfg["rates"]):
+            w.writerow([(ds[c]["scale"] if i == 0 else ds[c]["shape"] if i == 1 else "") if c in ds else r for c in cols])
     with open(os.path.join(in_dir, "weather.nc"), "wb") as fh:
         fh.write(b"stub")  # content served by the netCDF4 shim
     sites_cols = ["site_ID", "lat", "lon", "site_type"]
